@@ -208,6 +208,17 @@ func c14Worker(ctx *rt.Ctx, job *rt.Job) []*rt.Violation {
 		{Queries: []*updogv1.Query{{Id: 3}, {Expr: pEq("a", "x", 0)}}},
 		{},
 	}
+	// operators with many operands (0..12), flat and nested
+	for k := 0; k <= 12; k++ {
+		var ops []*pexpr
+		for i := 0; i < k; i++ {
+			ops = append(ops, pEq("a", []string{"x", "y", "nope"}[i%3], 0))
+		}
+		special = append(special,
+			&updogv1.QueryRequest{Queries: []*updogv1.Query{{Expr: pAnd(ops...)}}},
+			&updogv1.QueryRequest{Queries: []*updogv1.Query{{Expr: pOr(ops...), GroupBy: []string{"a"}}}},
+			&updogv1.QueryRequest{Queries: []*updogv1.Query{{Expr: pNot(pOr(pAnd(ops...), pEq("b", "1", 0)))}}})
+	}
 	nests := []c14Case{{Nest: 100, Inner: "eq"}, {Nest: 100, Inner: "unset"}, {Nest: 100, Inner: "absent"}, {Nest: 4990, Inner: "eq"}, {Nest: 4990, Inner: "unset"}}
 	if a.Mode == "inproc" {
 		idx, err := ix.Open(p, false, updog.NewLRUCache(1<<20))
